@@ -271,7 +271,7 @@ def check_rm(ctx, drv):
                                                                 "manager after all torrents have stopped, so not reachable there; design observation)")
     # 2. the real manager
     ops = ctx.pick(10, 14)
-    plan = [("disc", ctx.pick(120, 600)), ("pre", ctx.pick(8, 40)), ("during", ctx.pick(30, 200))]
+    plan = [("disc", ctx.pick(200, 1500)), ("pre", ctx.pick(8, 40)), ("during", ctx.pick(40, 300))]
     alltraces = []
     for k, (mode, n) in enumerate(plan):
         out, crashes = run_driver(ctx, drv, "rm", mode, n, ops, k)
